@@ -158,6 +158,35 @@ def run_records(case):
     nslots = _walk_immutable(a, tname, set())
     if nslots:
         classes.append("slots-walked")
+    # 1b. a record built through the public constructor does not alias the containers it was given:
+    # replace(field=<mutable copy>) and then mutating that copy leaves the record unchanged
+    import collections.abc
+
+    w0, h0, t0 = a.to_wire(), hash(a), a.to_text()
+    for k in a._get_all_slots():
+        v = getattr(a, k, None)
+        mine = None
+        if isinstance(v, collections.abc.Mapping) and len(v) > 0:
+            mine = dict(v)
+            poke = lambda m: m.pop(next(iter(m)))
+        elif isinstance(v, tuple) and len(v) > 0:
+            mine = list(v)
+            poke = lambda m: m.pop()
+        elif isinstance(v, bytes) and len(v) > 0:
+            mine = bytearray(v)
+            poke = lambda m: m.__setitem__(0, m[0] ^ 0xFF)
+        if mine is None:
+            continue
+        try:
+            built = a.replace(**{k: mine})
+        except Exception:
+            continue  # this field does not take that container type: nothing to alias
+        if built != a or built.to_wire() != w0:
+            continue  # the constructor normalised the argument differently; covered by C02
+        poke(mine)
+        if built.to_wire() != w0 or hash(built) != h0 or built.to_text() != t0 or built != a:
+            raise Violation("immutable", f"{tname}: a record built with {k}=<{type(mine).__name__}> changed when the caller mutated that {type(mine).__name__} afterwards", f"ctor-alias:{tname}.{k}")
+        classes.append("ctor-alias-checked")
     # 2. equality <=> same reference canonical encoding of the re-encoded (normalised) wire
     if tname != "CH_A":
         ca = C.canonical_rdata(rdtype, a.to_wire())
@@ -687,7 +716,7 @@ def set_cases(draw):
 def parts(tier):
     return [
         Part("records", run_records, strategy=record_cases(), n={"quick": 14000, "thorough": 400000},
-             require={"equal-differ-in-case": 300, "relative": 100, "slots-walked": 5000, "relative-vs-absolute-twin": 50},
+             require={"equal-differ-in-case": 300, "relative": 100, "slots-walked": 5000, "ctor-alias-checked": 3000, "relative-vs-absolute-twin": 50},
              shards={"quick": 8, "thorough": 16}),
         Part("sets", run_sets, strategy=set_cases(), n={"quick": 6000, "thorough": 200000},
              require={"dup": 500, "alias": 500, "intruder": 300, "singleton": 100,
